@@ -248,6 +248,12 @@ def _sym_iter(ex, it, j):
         return it.n, it.at(j)
     if isinstance(it, SV) and it.sort == "str":
         return z3.Length(it.t), SV("str", z3.SubString(it.t, j, 1), char=True)
+    if isinstance(it, Opaque):
+        # iterating an abstract collection: its items are a deterministic sequence of abstract values
+        from .contracts import pure_result
+
+        seq = pure_result(ex, _CUR_ST[0], f"iter_{it.kind}", "seq[u:Any]", [it])
+        return seq.n, seq.at(j)
     raise U(f"symbolic iteration over {it!r}")
 
 
@@ -947,7 +953,15 @@ def _m_split(ex, st, s, args, kwargs):
     if not is_sym(s) and all(not is_sym(a) for a in args):
         yield st, st.alloc(PList(s.split(*args)))
         return
-    raise U("split of symbolic string")
+    if not args:
+        # whitespace tokenisation of a symbolic string: an uninterpreted token sequence of the text
+        from .contracts import pure_result
+
+        seq = pure_result(ex, st, "py_split_ws", "seq[str]", [s])
+        seq.pytype = "list"
+        yield st, seq
+        return
+    raise U("split of symbolic string with separator")
 
 
 def _m_upper(ex, st, s, args, kwargs):
